@@ -5,3 +5,4 @@ import ParryModel.C20.Theorems
 #print axioms C20.nabs_fin
 #print axioms C20.interval_ops_defined
 #print axioms C20.cuboid_scaled_defined
+#print axioms C20.defined_seg3_projectLoc
